@@ -415,7 +415,7 @@ theorem nodeDemands_present (cands : Name → List String) (t : Spec.TSel) (ht :
       apply this nm
       have hmem := (docSels_iff s d _).1 ⟨_, ht⟩
       have key : ∀ xs : Selections, InSels xs (.sel (.spread nm dirs p)) → nm ∈ Spec.spreadsOfSels xs :=
-        fun xs hx => inSels_spread_mem xs nm dirs p hx
+        fun xs hx => inSels_spread_memL xs nm dirs p hx
       simp only [Spec.allSpreadNames, List.mem_append, List.mem_flatMap]
       rcases hmem with ⟨op, hop, hx⟩ | ⟨f, hf, hx⟩
       · exact Or.inl ⟨op, hop, key _ hx⟩
